@@ -60,11 +60,25 @@ def check_bands(ctx, sc):
             return
 
 
+def check_kernel_bands(ctx, case):
+    """Receiver kernel, multi-band call vs one call per band, bit for bit."""
+    full = kernels.impl_collect(case)
+    ctx.oracle_evals += 1
+    for b in range(case['B']):
+        one = kernels.impl_collect(dict(case, B=1, att=case['att'][b:b + 1], E=case['E'][:, b:b + 1, :]))
+        if not np.array_equal(full[:, b], one[:, 0]):
+            ctx.violation('band-not-independent', 'receiver kernel: band %d of a %d-band call differs from the single-band call (attenuation %s)' % (b, case['B'], case['att'].tolist()),
+                          {k: case[k] for k in ('P', 'B', 'S', 'c', 'dt', 'dist', 'att', 'E')}, None, 'bit-identical')
+            return
+
+
 def run(ctx):
     n_k = 20 if ctx.tier == 'quick' else 600
     kernels.corr_exchange(ctx, shape_coincidence_cases(ctx.rng, n_k))
     cc = [kernels.gen_collect_case(ctx.rng) for _ in range(n_k)]
     kernels.corr_collect(ctx, cc)
+    for case in cc:
+        check_kernel_bands(ctx, case)
     n_s = 2 if ctx.tier == 'quick' else 16
     for k in range(n_s):
         sc = energy.gen_scene(ctx.rng, small=True, multi_dir=(k % 2 == 1), att_zero=False,
@@ -77,10 +91,16 @@ def run(ctx):
 def oracle(ctx, budget_s=60):
     t = common.Timer()
     while t.s() < budget_s and not ctx.violations:
+        for _ in range(20):
+            check_kernel_bands(ctx, kernels.gen_collect_case(ctx.rng))
         sc = energy.gen_scene(ctx.rng, small=True, att_zero=False, n_bands=int(ctx.rng.integers(2, 5)))
         check_bands(ctx, sc)
 
 
 def replay(ctx, rp):
+    if 'E' in rp['input']:
+        case = {k: (np.array(v) if isinstance(v, list) else v) for k, v in rp['input'].items()}
+        check_kernel_bands(ctx, case)
+        return not ctx.violations
     check_bands(ctx, c03._scene_from_json(rp['input']))
     return not ctx.violations
